@@ -1,4 +1,6 @@
 // Packet construction from case descriptions and packet snapshots for the log.
+#include <algorithm>
+
 #include "common.h"
 
 using nlohmann::json;
@@ -81,12 +83,30 @@ void snapPacket(Out& o, const Packet& p)
     o.end();
 }
 
-void logFrames(Out& o, const char* k, const std::vector<std::vector<uint8_t>>& frames)
+// Frames as returned.  A frame longer than the configured maximum is logged up to maximum + 64 bytes only (it stays
+// longer than the maximum for the judge, which is all any monitor can say about it) and its real size is noted:
+// an encoder that returns frames of 64 KiB for a 40 byte maximum would otherwise produce log lines of hundreds of MB
+// that the judge cannot read (seen with seeded change round6c-2: machinery error instead of a verdict).
+void logFrames(Out& o, const char* k, const std::vector<std::vector<uint8_t>>& frames, size_t maxSize)
 {
+    const size_t cap = maxSize > SIZE_MAX - 64 ? SIZE_MAX : maxSize + 64;
+    std::vector<std::pair<size_t, size_t>> cut;
     o.arr(k);
-    for (const auto& f : frames)
-        o.bytes(f.data(), f.size());
+    for (size_t i = 0; i < frames.size(); ++i)
+    {
+        const auto& f = frames[i];
+        if (f.size() > cap)
+            cut.emplace_back(i, f.size());
+        o.bytes(f.data(), std::min(f.size(), cap));
+    }
     o.endArr();
+    if (!cut.empty())
+    {
+        o.arr((std::string(k) + "_cut").c_str());
+        for (const auto& c : cut)
+            o.arr().val(static_cast<long long>(c.first)).val(static_cast<long long>(c.second)).endArr();
+        o.endArr();
+    }
 }
 
 // the status tracker as the judge sees it: every entry (device, packet, interfaces), counts and lookups
